@@ -192,6 +192,11 @@ def emit_source(prog: Dict[str, Any]) -> str:
         sig, h0 = "ids", "self.emb(ids) + self.pos(torch.arange(S))"
     body.append(f"        h0 = {h0}")
     last = go(prog["items"], "h0", "        ")
+    if prog.get("flag_tail"):
+        # a Python-level switch: flipping the attribute makes TorchDynamo recompile to a smaller / larger graph
+        init.append("self.extra = True")
+        body.append("        if self.extra:")
+        body.append(f"            {last} = F.gelu(torch.tanh({last}) * 2.0) + 0.25")
     if prog.get("out_name"):
         # TorchDynamo names graph nodes after local variables: e.g. a variable called `output`
         body.append(f"        {prog['out_name']} = {last} * 1.0")
